@@ -389,7 +389,7 @@ def gen_c12(rng, profile):
             d = {"field": None, "sub": True, "sup": r.random() < 0.7, "tagger": None}
         else:
             d = {"field": "t", "sub": r.random() < 0.9, "sup": r.random() < 0.35,
-                 "tagger": r.choice([None, None, None, "name"])}
+                 "tagger": r.choice([None, None, None, "name", "list"])}
             if not d["sub"]:
                 d["sup"] = True
         t = ["ann", ["cls", base], d]
@@ -407,6 +407,12 @@ def gen_c12(rng, profile):
             t = ["opt", t]
         hc = {"name": hn, "mixins": [r.choice([fmt_mixin, "Dict"])],
               "fields": [{"n": "f", "t": t}]}
+        if not cfg_discr and len(hier) > 1 and r.random() < 0.3:
+            # a second discriminated position on the same holder, same settings,
+            # other base: registries of two dispatchers must stay separate
+            other = r.choice([c["name"] for c in hier if c["name"] != base])
+            hc["fields"].append({"n": "g", "t": ["opt", ["ann", ["cls", other], dict(d)]],
+                                 "d": ["n"]})
         c = cfg()
         if c:
             hc["cfg"] = c
@@ -509,6 +515,10 @@ def gen_c12(rng, profile):
             op = {"k": "call", "cls": h["name"], "m": r.choice(ms),
                   "inp": {"f": wrap_payload(t, payload(defined, hd, hb))},
                   "via": "holder"}
+            if len(h["fields"]) > 1 and r.random() < 0.7:
+                g = h["fields"][1]["t"][1]
+                if g[1][1] in defined:
+                    op["inp"]["g"] = payload(defined, g[2], g[1][1])
         else:
             if codecs and r.random() < 0.6:
                 base = r.choice(codecs)
@@ -655,6 +665,8 @@ def oracle_c12(ex, idx, op, out):
         return None
     if base not in defined:
         return None
+    if via == "holder" and out["s"] == "exc" and out["e"].get("field_name") not in (None, "f"):
+        return None  # the other discriminated position of the holder failed first
     m = c12_model(fam, defined, base, d, doc)
     if m[0] == "skip":
         return None
